@@ -142,6 +142,35 @@ def f64_routines(ctx, R, q):
     return uniq
 
 
+def wrapper_forwards(ctx, R, rule):
+    """The quantile wrapper hands its shape and probability to the f64 routine as they are: each f64 argument of that call is
+    `to_f64()` of one of the wrapper's own parameters (or a parameter itself) — not a clamped / shifted / combined value."""
+    try:
+        q = R.quantile()
+    except RoleLost as e:
+        return ctx.lost(rule, str(e))
+    impls = f64_routines(ctx, R, q)
+    if len(impls) != 1:
+        return ctx.lost(rule, "the f64 quantile routine (callee of inverse_gamma_lr)", q.path)
+    v = Vals(q)
+    sites = [(bi, t) for bi, t, cb in R.local_callees(q) if cb is impls[0]]
+    if len(sites) != 1:
+        return ctx.lost(rule, "single call of the f64 routine in the wrapper", q.path)
+    bi, t = sites[0]
+    bad = []
+    for i, a in enumerate(t["args"]):
+        if a.get("k") == "const":
+            continue
+        r = v.root(a)
+        ct = v.call_term(r)
+        if ct is not None and callee_is(ct, trait="MomTropFloat", name="to_f64"):
+            r = v.root(ct["args"][0])
+        if r.kind != "arg":
+            bad.append("argument %d is %r" % (i, r))
+    ctx.ob(rule, "the wrapper passes to_f64 of its own parameters (shape, probability, tolerance) and its iteration bound to the f64 routine unmodified",
+           not bad, q.path, "wrapper-forwards-arguments", where=pat.where(t), detail="; ".join(bad))
+
+
 def rule_d(ctx, R):
     """Never panics: statrs' incomplete-gamma functions panic for x <= 0; every call must be reached only with x > 0 (or NaN)."""
     from ..f64facts import NEG, ZERO, NINF
@@ -593,6 +622,10 @@ def run(ctx):
     rule_d(ctx, ctx.roles)
     rule_e(ctx, ctx.roles)
     rule_f(ctx, ctx.roles)
+    from . import common
+    ctx.rule("C12-g", "the designated hypercube coordinate is the caller's: the x-space entry hands its point to the sampling routine unmodified")
+    common.entry_forwards_inputs(ctx, ctx.roles, "C12-g")
+    wrapper_forwards(ctx, ctx.roles, "C12-g")
     if ctx.cfg == "default":
         from ..fixtures import detectors_alive
         ctx.rule("C12-z", "positive example: the panic scan finds the planted bounds check, unwrap and explicit panic in fixtures/")
